@@ -25,6 +25,15 @@ var ghostKinds = map[string]string{
 	"synced": "bool", "created": "bool", "locked": "bool",
 	"first": "uint64", "last": "uint64", "nstored": "int", "ncalls": "int",
 	"persistedID": "uint64", "commits": "int",
+	"data": "bytes",
+}
+
+// ghostGlobal returns the value of a ghost global integer (names g_*).
+func (e *Exec) ghostGlobal(st *State, name string) Value {
+	if v, ok := st.Ghost[name]; ok {
+		return v
+	}
+	return VInt{T: e.declare(name, BV64), Signed: true}
 }
 
 func (e *Exec) ghostKey(obj *Object, name string) string { return obj.Name + "#" + name }
@@ -42,9 +51,19 @@ func (e *Exec) ghostGet(st *State, obj *Object, name string) Value {
 	case "bool":
 		return VBool{e.declare(key, BoolSort)}
 	case "int":
-		return VInt{T: e.declare(key, BV64), Signed: true}
+		t := e.declare(key, BV64)
+		if name == "size" {
+			e.addAxiom(And(BVCmp("bvsle", i64(0), t), BVCmp("bvslt", t, i64(1<<maxLenBits))))
+		}
+		return VInt{T: t, Signed: true}
 	case "uint64":
 		return VInt{T: e.declare(key, BV64), Signed: false}
+	case "bytes":
+		// ghost byte sequence (e.g. file contents): a region whose length is
+		// the ghost field `size` of the same object
+		reg := e.lazyRegion(key, types.Typ[types.Uint8])
+		sz := e.ghostGet(st, obj, "size").(VInt).T
+		return VSlice{Nil: False, Reg: reg, Base: i64(0), Len: sz, Cap: sz, Elem: types.Typ[types.Uint8]}
 	}
 	panic(contractError{"bad ghost kind " + kind})
 }
